@@ -922,8 +922,11 @@ class PolarsModel(data_algebra.data_model.DataModel):
                 True if ci in set(op.reverse) else False for ci in op.order_by
             ]
             res = res.sort(
-                by=op.order_by, descending=reversed_cols, maintain_order=True
-            )
+                by=op.order_by,
+                descending=reversed_cols,
+                nulls_last=True,
+                maintain_order=True,
+            )  # missing order keys last, as Pandas orders them
         res = res.with_columns(produced_columns)
         if len(temp_v_columns) > 0:
             res = res.select(op.columns_produced())
